@@ -29,6 +29,11 @@ def main():
     if '--no-suite' in args:
         args.remove('--no-suite')
         suite = False
+    base = 'HEAD'
+    if '--base' in args:
+        i = args.index('--base')
+        base = args[i + 1]
+        del args[i : i + 2]
     if '--tier' in args:
         i = args.index('--tier')
         tier = args[i + 1]
@@ -46,14 +51,16 @@ def main():
     ran = meta.setdefault('ran', {})
     tree = f'/tmp/st_{tag}'
     sh(f'git -C /repo worktree remove --force {tree}')
-    r = sh(f'git -C /repo worktree add -q --detach {tree} HEAD')
+    r = sh(f'git -C /repo worktree add -q --detach {tree} {base}')
     assert r.returncode == 0, r.stderr
-    meta['repo_head'] = sh('git -C /repo rev-parse --short HEAD').stdout.strip()
+    meta['repo_head'] = sh(f'git -C {tree} rev-parse --short HEAD').stdout.strip()
     try:
+        has_demo = os.path.exists(os.path.join(dest, 'demo.py'))
         # 1. demo on the clean tree
-        r = sh(f'PYTHONPATH={tree} /venv/bin/python {dest}/demo.py', cwd='/tmp')
-        ran['demo_clean'] = {'exit': r.returncode, 'tail': (r.stdout + r.stderr)[-300:]}
-        print('demo on clean tree: exit', r.returncode)
+        if has_demo:
+            r = sh(f'PYTHONPATH={tree} /venv/bin/python {dest}/demo.py', cwd='/tmp')
+            ran['demo_clean'] = {'exit': r.returncode, 'tail': (r.stdout + r.stderr)[-300:]}
+            print('demo on clean tree: exit', r.returncode)
         # 2. patch applies; demo on the patched tree
         r = sh(f'git -C {tree} apply {dest}/patch.diff')
         ran['applies'] = r.returncode == 0
@@ -61,9 +68,10 @@ def main():
             print('PATCH DOES NOT APPLY', r.stderr)
             json.dump(meta, open(meta_path, 'w'), indent=1)
             return 1
-        r = sh(f'PYTHONPATH={tree} /venv/bin/python {dest}/demo.py', cwd='/tmp')
-        ran['demo_patched'] = {'exit': r.returncode, 'tail': (r.stdout + r.stderr)[-600:]}
-        print('demo on patched tree: exit', r.returncode)
+        if has_demo:
+            r = sh(f'PYTHONPATH={tree} /venv/bin/python {dest}/demo.py', cwd='/tmp')
+            ran['demo_patched'] = {'exit': r.returncode, 'tail': (r.stdout + r.stderr)[-600:]}
+            print('demo on patched tree: exit', r.returncode)
         if suite:
             t0 = time.time()
             r = sh(f'PYTHONPATH={tree} /venv/bin/python -m pytest -q -p no:cacheprovider --timeout=900 --continue-on-collection-errors -n 10 '
